@@ -142,7 +142,7 @@ JUNK_TEXTS = ['', ' ', '{', '[', '}', 'nul', '{"jsonrpc": "2.0", "method": "echo
 
 
 def gen_document(ch: Choices, max_len: int = 5, allow_junk: bool = True, tok_prefix: str = '',
-                 exotic: bool = False, reentrant: bool = False) -> Dict[str, Any]:
+                 exotic: bool = False, reentrant: bool = False, dup_notification: bool = False) -> Dict[str, Any]:
     """A request text plus a description.  {'text', 'shape', 'kinds', 'doc'}"""
     shape = ['single', 'batch', 'junk_text', 'nonobject', 'empty_batch'][
         ch.weighted([5, 8, 1 if allow_junk else 0, 1 if allow_junk else 0, 1 if allow_junk else 0], 'doc.shape')]
@@ -177,6 +177,13 @@ def gen_document(ch: Choices, max_len: int = 5, allow_junk: bool = True, tok_pre
             els[a]['id'] = other
             els[b]['id'] = other
             kinds.append('dup_id2')
+    if dup_notification and shape == 'batch' and ch.flag(1, 6, 'doc.dup_notification'):
+        # the same notification twice (equal method and parameters, no id): two elements, two executions
+        notifs = [k for k, e in enumerate(els) if 'id' not in e]
+        if notifs:
+            src = notifs[ch.draw(len(notifs), 'doc.dup_notification.which')]
+            els.insert(ch.draw(len(els) + 1, 'doc.dup_notification.pos'), json.loads(json.dumps(els[src])))
+            kinds.append('dup_notification')
     if shape == 'batch' and ch.flag(1, 10, 'doc.foreign_element'):
         els.insert(ch.draw(len(els) + 1, 'doc.foreign.pos'), ch.choice(F.NONOBJECT_ALPHABET, 'doc.foreign.value'))
         kinds.append('foreign')
